@@ -521,6 +521,32 @@ def gen_C10(tier, seed):
             if j == 2:
                 st['opts']['out_chunk_float'] = True
         progs.append(p.build())
+    # chunk sizes and window starts no row count can be cut by (negative, zero): refused - or, if accepted, invisible like any other
+    for i, (route, bad) in enumerate([(r, b) for r in ('struct', 'dict', 'h5', 'none') for b in ({'in_chunk': -3}, {'in_chunk': -1}, {'in_chunk': 0}, {'from': -3}, {'from': -10})]):
+        p = Prog(f'C10-badchunk-{route}-{i}', {'kind': 'badchunk', 'route': route})
+        p.file(1, vrl=256)
+        lf = p.lf(1, fh_id='BAD-CHUNKS')
+        p.origin(lf, name='O')
+        rows = 10
+        arrs = {}
+        chans = []
+        for c in range(2):
+            a = rand_array(rng, ['float64', 'int32'][c], rows, None)
+            ch = p.channel(lf, f'CH{c}', data=a if route == 'none' else None)
+            chans.append(ch)
+            if route != 'none':
+                arrs[ch] = p.array(a)
+        p.frame(lf, 'FR', chans)
+        kw = {'route': route, 'data_arrays': arrs} if route != 'none' else {}
+        p.write(1, fname='plain.dlis', **kw)
+        for j, ic in enumerate([None, 2, 3]):
+            opts = dict(bad)
+            if 'in_chunk' not in opts:
+                opts['in_chunk'] = ic
+            elif j:
+                continue
+            p.write(1, fname=f'bad{j}.dlis', valid=False, either=True, **kw, **opts)
+        progs.append(p.build())
     progs += gen_multirec('C10', tier, rng)
     return progs
 
@@ -604,6 +630,19 @@ def gen_C06(tier, seed):
                         cases.append({'code': 21, 'py': py,
                                       'abs': {'k': 'dt', 'y': u.year, 'mo': u.month, 'd': u.day, 'h': u.hour,
                                               'mi': u.minute, 's': u.second, 'us': u.microsecond}})
+    # the two readings of a wall-clock time that occurs twice (end of daylight saving time): equal and of equal hash in Python,
+    # an hour apart in UTC - each is written as its own instant, in whatever order they come
+    foldcases = []
+    import zoneinfo
+    for zone, (y, mo, d, h, mi) in [('Europe/Berlin', (2023, 10, 29, 2, 30)), ('Europe/London', (2021, 10, 31, 1, 30)),
+                                    ('America/New_York', (2022, 11, 6, 1, 15))]:
+        for fold in (0, 1, 0):
+            import datetime as _dt
+            u = _dt.datetime(y, mo, d, h, mi, 7, tzinfo=zoneinfo.ZoneInfo(zone), fold=fold).astimezone(_dt.timezone.utc)
+            py = DT(y, mo, d, h, mi, 7)
+            py['zone'], py['fold'] = zone, fold
+            foldcases.append({'code': 21, 'py': py, 'abs': {'k': 'dt', 'y': u.year, 'mo': u.month, 'd': u.day, 'h': u.hour,
+                                                            'mi': u.minute, 's': u.second, 'us': u.microsecond}})
     # object names / references
     for origin in [0, 1, 127, 128, 16383, 16384, 2 ** 30 - 1, 2 ** 30]:
         for copy in [0, 1, 255, 256]:
@@ -639,7 +678,7 @@ def gen_C06(tier, seed):
         c2 = coll[:]
         rng.shuffle(c2)
         p = Prog(f'C06-collide-{i}', {'kind': 'encode-collide'})
-        p.steps.append({'op': 'encode', 'cases': c2 + cases[i * 50:(i + 1) * 50] + c2})
+        p.steps.append({'op': 'encode', 'cases': c2 + cases[i * 50:(i + 1) * 50] + c2 + (foldcases if i % 2 == 0 else foldcases[::-1])})
         progs.append(p.build())
     # IDENT fields the writer fills itself (set names, object names, labels) at the UVARI / USHORT thresholds, seen in files:
     # an IDENT has a one-byte length, 256 characters cannot be represented
